@@ -266,6 +266,12 @@ def varValueDiags (vars : List RVarDef) (ty : Ty) (kind : TKind) (n : String) : 
     if kind.isInput && vd.ty.innerNamedType == ty.innerNamedType then [] else [.nestedVariableType n]
   | none => [.undefinedVariable n]
 
+/-- the keys of an object literal given to an input object: `unique_object_fields` (a key written twice,
+    `UniqueInputValue`) and the search for a key the input object does not define (`UndefinedInputValue`);
+    reported as `.valueShape` (which of the two, and how often: family "values", Model/ExecValues.lean) -/
+def keyDiags (fields : List InDef) (kvs : List (String × RVal)) : List TDiag :=
+  if decide ((kvs.map (·.1)).Nodup) && kvs.all (fun kv => fields.any (·.name == kv.1)) then [] else [.valueShape]
+
 /-- `value_of_correct_type`, the part that meets variables.  `fuel` = nesting of the literal. -/
 def valueDiags (s : RSchema) (vars : List RVarDef) : Nat → Ty → RVal → List TDiag
   | 0, _, _ => []
@@ -287,6 +293,7 @@ def valueDiags (s : RSchema) (vars : List RVarDef) : Nat → Ty → RVal → Lis
         (match kind with
          | .scalar false => kvs.flatMap fun kv => opaqueVars vars k kv.2
          | .inputObject fields =>
+           keyDiags fields kvs ++
            fields.flatMap fun fd =>
              match kvs.find? (·.1 == fd.name) with
              | some (_, x) => valueDiags s vars k fd.ty x
